@@ -719,28 +719,28 @@ def chFull : Channel := { modes := { clientLimit := some 1 }, users := [(str "al
 
 -- wrong key -> 475
 example : joinCheckExisting chKey (str "#c") (some (some (str "wrong"))) bobSrc (str "bob") (str "bob") []
-    = (false, [str "475 bob #c :Cannot join channel (+k)"]) := by decide
+    = (false, [(Reply.ErrBadChannelKey475 (client := str "bob") (channel := str "#c"))]) := by decide
 -- no key -> 475
 example : joinCheckExisting chKey (str "#c") none bobSrc (str "bob") (str "bob") []
-    = (false, [str "475 bob #c :Cannot join channel (+k)"]) := by decide
+    = (false, [(Reply.ErrBadChannelKey475 (client := str "bob") (channel := str "#c"))]) := by decide
 -- right key -> admitted
 example : joinCheckExisting chKey (str "#c") (some (some (str "sesame"))) bobSrc (str "bob") (str "bob") []
     = (true, []) := by decide
 -- banned -> 474
 example : joinCheckExisting chBan (str "#c") none bobSrc (str "bob") (str "bob") []
-    = (false, [str "474 bob #c :Cannot join channel (+b)"]) := by decide
+    = (false, [(Reply.ErrBannedFromChan474 (client := str "bob") (channel := str "#c"))]) := by decide
 -- banned but excepted -> admitted
 example : joinCheckExisting chBanEx (str "#c") none bobSrc (str "bob") (str "bob") []
     = (true, []) := by decide
 -- invite-only without invitation -> 473
 example : joinCheckExisting chInv (str "#c") none bobSrc (str "bob") (str "bob") [str "#other"]
-    = (false, [str "473 bob #c :Cannot join channel (+i)"]) := by decide
+    = (false, [(Reply.ErrInviteOnlyChan473 (client := str "bob") (channel := str "#c"))]) := by decide
 -- invite-only with invitation -> admitted
 example : joinCheckExisting chInv (str "#c") none bobSrc (str "bob") (str "bob") [str "#c"]
     = (true, []) := by decide
 -- full -> 471
 example : joinCheckExisting chFull (str "#c") none bobSrc (str "bob") (str "bob") []
-    = (false, [str "471 bob #c :Cannot join channel (+l)"]) := by decide
+    = (false, [(Reply.ErrChannelIsFull471 (client := str "bob") (channel := str "#c"))]) := by decide
 -- the spec gives the same verdicts
 example : Spec.admit (req chKey (str "#c") (some (some (str "wrong"))) bobSrc []) = .error .badKey := by decide
 example : Spec.admit (req chBanEx (str "#c") none bobSrc []) = .ok () := by decide
@@ -748,7 +748,7 @@ example : Spec.admit (req chInv (str "#c") none bobSrc [str "#c"]) = .ok () := b
 example : Spec.admit (req chFull (str "#c") none bobSrc []) = .error .full := by decide
 -- a member that fails the key test still gets 475; one that passes is refused silently
 example : joinCheckExisting chKey (str "#c") none (str "al!~a@h") (str "al") (str "al") []
-    = (false, [str "475 al #c :Cannot join channel (+k)"]) := by decide
+    = (false, [(Reply.ErrBadChannelKey475 (client := str "al") (channel := str "#c"))]) := by decide
 example : joinCheckExisting chKey (str "#c") (some (some (str "sesame"))) (str "al!~a@h") (str "al") (str "al") []
     = (false, []) := by decide
 
@@ -774,21 +774,21 @@ def cfg1 : Cfg := { maxJoins := some 1 }
 example : joinDecide cfg1 w0 (x0.conn 1) (str "bob") [] [str "#k", str "#f", str "#new"]
     [some (str "sesame")] 1 =
     ([(false, false), (false, false), (false, true)],
-     [str "405 bob #k :You have joined too many channels",
-      str "471 bob #f :Cannot join channel (+l)",
-      str "405 bob #f :You have joined too many channels",
-      str "405 bob #new :You have joined too many channels"], 1) := by decide
+     [(Reply.ErrTooManyChannels405 (client := str "bob") (channel := str "#k")),
+      (Reply.ErrChannelIsFull471 (client := str "bob") (channel := str "#f")),
+      (Reply.ErrTooManyChannels405 (client := str "bob") (channel := str "#f")),
+      (Reply.ErrTooManyChannels405 (client := str "bob") (channel := str "#new"))], 1) := by decide
 
 -- without max_joins: #k accepted (key at position 0), #f refused (no key needed, full), #new created
 example : joinDecide {} w0 (x0.conn 1) (str "bob") [] [str "#k", str "#f", str "#new"]
     [some (str "sesame")] 1 =
     ([(true, false), (false, false), (true, true)],
-     [str "471 bob #f :Cannot join channel (+l)"], 3) := by decide
+     [(Reply.ErrChannelIsFull471 (client := str "bob") (channel := str "#f"))], 3) := by decide
 
 -- processJoin, all refused
 example : (processJoin {} 1 [str "#k", str "#f"] none x0).direct =
-    [str ":irc.irc 475 bob #k :Cannot join channel (+k)",
-     str ":irc.irc 471 bob #f :Cannot join channel (+l)"] := by decide
+    [(str ":irc.irc " ++ Reply.ErrBadChannelKey475 (client := str "bob") (channel := str "#k")),
+     (str ":irc.irc " ++ Reply.ErrChannelIsFull471 (client := str "bob") (channel := str "#f"))] := by decide
 example : (processJoin {} 1 [str "#k", str "#f"] none x0).queued = [] := by decide
 example : (processJoin {} 1 [str "#k", str "#f"] none x0).w.channels = w0.channels := by decide
 example : (processJoin {} 1 [str "#k", str "#f"] none x0).w.users = w0.users := by decide
@@ -805,7 +805,7 @@ example : (x0.conn 1).nick = some (str "bob") ∧ Map.lookup (str "bob") x0.w.us
 example : (processJoin {} 1 [str "#k"] (some [str "sesame"]) x0).direct =
     [str ":bob!~b@host.org JOIN #k",
      str ":irc.irc 353 bob = #k :al bob",
-     str ":irc.irc 366 bob #k :End of /NAMES list"] := by decide
+     (str ":irc.irc " ++ Reply.RplEndOfNames366 (client := str "bob") (channel := str "#k"))] := by decide
 example : (processJoin {} 1 [str "#k"] (some [str "sesame"]) x0).queued =
     [(2, str ":bob!~b@host.org JOIN #k")] := by decide
 example : Map.lookup (str "#k") (processJoin {} 1 [str "#k"] (some [str "sesame"]) x0).w.channels =
@@ -823,7 +823,7 @@ example : (joinDecide {} w0 (x0.conn 1) (str "bob") [] [str "#f", str "#k"]
     [some (str "x"), some (str "sesame")] 1).1 = [(false, false), (true, false)] := by decide
 example : (joinDecide {} w0 (x0.conn 1) (str "bob") [] [str "#k", str "#f"]
     [some (str "x"), some (str "sesame")] 1).2.1 =
-    [str "475 bob #k :Cannot join channel (+k)", str "471 bob #f :Cannot join channel (+l)"] := by
+    [(Reply.ErrBadChannelKey475 (client := str "bob") (channel := str "#k")), (Reply.ErrChannelIsFull471 (client := str "bob") (channel := str "#f"))] := by
   decide
 
 /-! ### finding `join_duplicate`: a channel listed twice in one JOIN is decided twice against the
@@ -834,7 +834,7 @@ def cfg3 : Cfg := { maxJoins := some 3 }
 example : joinDecide cfg3 w0 (x0.conn 1) (str "bob") [] [str "#k", str "#k", str "#new"]
     [some (str "sesame"), some (str "sesame"), some []] 1 =
     ([(true, false), (true, false), (false, true)],
-     [str "405 bob #new :You have joined too many channels"], 3) := by decide
+     [(Reply.ErrTooManyChannels405 (client := str "bob") (channel := str "#new"))], 3) := by decide
 example : (processJoin {} 1 [str "#k", str "#k"] (some [str "sesame", str "sesame"]) x0).queued =
     [(2, str ":bob!~b@host.org JOIN #k"), (2, str ":bob!~b@host.org JOIN #k")] := by decide
 end Ex
